@@ -121,7 +121,7 @@ func procThreadCPU(tid int) time.Duration {
 
 func runC18(c *Ctx) {
 	rep := c.Rep
-	rep.Meta("cases: for every decoder of untrusted bytes (certificates, CSRs, CRLs, PKCS#7 incl. Verify/Decrypt on the result, BER transcoder, PKCS#8 with/without password, SM2 private/public key structures, PKIX, PEM and hex readers, PKCS#12 Decode/DecodeAll/ToPEM, SM2 ciphertext raw/ASN.1, signatures, compressed points, SM4 key PEM, 16 TLS handshake message decoders, session state, ticket decryption, TLS key-pair loaders, CertPool PEM) a corpus of valid encodings produced by the library and derived from each: every truncation, single-byte substitutions from {00,01,7f,80,ff,b^1,b^80}, every TLV length rewritten to {0,len-1,len+1,0x80,0x84ffffffff}, universal tag swaps, BER nesting to depth 10^4 (definite and indefinite), empty input and random strings. Monitors: recover() per call + journal (child process), per-call thread CPU budget (2 s + 1 us/byte; a watcher converts a call that burns 20 s CPU into a verdict), serial allocation sampling (TotalAlloc delta <= 64*len + 8 MiB). Distinct non-trivial = distinct (decoder, derivation kind, corpus item).",
+	rep.Meta("cases: for every decoder of untrusted bytes (certificates, CSRs, CRLs, PKCS#7 incl. Verify/Decrypt on the result, BER transcoder, PKCS#8 with/without password, SM2 private/public key structures, PKIX, PEM and hex readers, PKCS#12 Decode/DecodeAll/ToPEM, SM2 ciphertext raw/ASN.1, signatures, compressed points, SM4 key PEM, 16 TLS handshake message decoders, session state, ticket decryption, TLS key-pair loaders, CertPool PEM) a corpus of valid encodings produced by the library and derived from each: every truncation, single-byte substitutions from {00,01,7f,80,ff,b^1,b^80}, every TLV length rewritten to {0,len-1,len+1,0x80,0x84ffffffff}, universal tag swaps, seeded depth-2 derivations (two edits: substitution, truncation, span deletion/duplication, splice with another valid encoding), BER nesting to depth 10^4 (definite and indefinite), empty input and random strings. Monitors: recover() per call + journal (child process), per-call thread CPU budget (2 s + 1 us/byte; a watcher converts a call that burns 20 s CPU into a verdict), serial allocation sampling (TotalAlloc delta <= 64*len + 8 MiB). Distinct non-trivial = distinct (decoder, derivation kind, corpus item).",
 		20000, []string{"Go runtime recover/rusage/MemStats"},
 		[]string{"bytes that encode a password-stretching iteration count are not mutated (the property exempts them)"})
 	r := c.Rng("c18")
@@ -397,6 +397,73 @@ func runC18(c *Ctx) {
 			}
 		}
 	}
+	// depth-2 derivations (seeded): two independent edits of one valid encoding — substitution, truncation, deletion or
+	// duplication of a span, splice with another corpus item of the same decoder — which reach states a single edit cannot
+	// (e.g. a shortened length field *and* a damaged child).
+	for di := range decs {
+		d := &decs[di]
+		for ci, v := range d.corpus {
+			if len(v) == 0 {
+				continue
+			}
+			n2 := c.Q(40, 6000)
+			if d.heavy {
+				n2 = c.Q(6, 400)
+			}
+			prot := map[int]bool{}
+			if d.stretch {
+				prot = protectedAt(v)
+			}
+			rr := c.Rng(fmt.Sprintf("depth2/%d/%d", di, ci))
+			for q := 0; q < n2; q++ {
+				m := append([]byte{}, v...)
+				for e := 0; e < 2 && len(m) > 0; e++ {
+					p := rr.Intn(len(m))
+					switch rr.Intn(6) {
+					case 0, 1:
+						if p < len(v) && prot[p] && len(m) == len(v) {
+							continue
+						}
+						m[p] = subs(m[p])[rr.Intn(7)]
+					case 2:
+						if d.stretch {
+							continue // a truncated container may expose the count bytes differently; keep the exemption simple
+						}
+						m = m[:p]
+					case 3: // delete a span
+						if d.stretch {
+							continue
+						}
+						l := 1 + rr.Intn(8)
+						if p+l > len(m) {
+							l = len(m) - p
+						}
+						m = append(m[:p:p], m[p+l:]...)
+					case 4: // duplicate a span
+						if d.stretch {
+							continue
+						}
+						l := 1 + rr.Intn(16)
+						if p+l > len(m) {
+							l = len(m) - p
+						}
+						dup := append([]byte{}, m[p:p+l]...)
+						m = append(m[:p+l:p+l], append(dup, m[p+l:]...)...)
+					case 5: // splice with another corpus item
+						if d.stretch || len(d.corpus) < 2 {
+							continue
+						}
+						o := d.corpus[(ci+1+rr.Intn(len(d.corpus)-1))%len(d.corpus)]
+						if len(o) == 0 {
+							continue
+						}
+						m = append(m[:p:p], o[rr.Intn(len(o)):]...)
+					}
+				}
+				cases = append(cases, tcase{d, "depth2", m, ci})
+			}
+		}
+	}
 	// BER nesting depth
 	for _, depth := range []int{10, 100, 1000, 10000} {
 		var def, indef []byte
@@ -476,6 +543,7 @@ func runC18(c *Ctx) {
 			}
 		}
 	}()
+	tPhase := time.Now()
 	for w := 0; w < workers; w++ {
 		wg.Add(1)
 		go func(w int) {
@@ -510,6 +578,7 @@ func runC18(c *Ctx) {
 					rep.Violation("C18/"+tc.dec.name+"/cpu-budget-exceeded/"+tc.kind, fmt.Sprintf("%v of thread CPU for %d input bytes (budget %v)", dt, len(tc.input), budget), wit)
 				}
 				rep.Max("max_cpu_us_per_call", int64(dt/time.Microsecond))
+				rep.Count("cpu_ms/"+tc.dec.name, int64(dt/time.Microsecond))
 				nontrivial := tc.kind != "empty" && tc.kind != "valid"
 				rep.EvalN(tc.dec.name+"/"+tc.kind, 1, nontrivial)
 				if nontrivial && tc.item >= 0 {
@@ -520,14 +589,22 @@ func runC18(c *Ctx) {
 	}
 	wg.Wait()
 	close(stop)
+	rep.Count("phase_ms/execute", int64(time.Since(tPhase)/time.Millisecond))
+	tPhase = time.Now()
 
 	// ---------- serial allocation sampling
 	{
 		step := len(cases)/c.Q(3000, 30000) + 1
 		var ms runtime.MemStats
 		sampled := 0
-		for i := 0; i < len(cases); i += step {
+		// every nesting case, every valid encoding and every input of 8 KiB or more is measured; the rest is sampled at a fixed
+		// stride (a pure function of the case list, never of luck: an earlier version sampled by stride only and met the
+		// quadratic BER re-encoding in some runs and not in others)
+		for i := 0; i < len(cases); i++ {
 			tc := cases[i]
+			if !(i%step == 0 || strings.HasPrefix(tc.kind, "nesting") || tc.kind == "valid" || len(tc.input) >= 8192) {
+				continue
+			}
 			in := append([]byte{}, tc.input...)
 			runtime.ReadMemStats(&ms)
 			a0 := ms.TotalAlloc
@@ -536,7 +613,7 @@ func runC18(c *Ctx) {
 			d := ms.TotalAlloc - a0
 			limit := uint64(64*len(tc.input)) + 8<<20
 			if strings.HasPrefix(tc.kind, "nesting") {
-				limit += uint64(len(tc.input)) * 2048 // per-level bookkeeping of a recursive descent is linear in depth
+				limit += uint64(len(tc.input)) * 512 // per-level bookkeeping of a recursive descent is linear in depth
 			}
 			if d > limit {
 				rep.Violation("C18/"+tc.dec.name+"/allocation-budget-exceeded/"+tc.kind, fmt.Sprintf("%d bytes allocated for %d input bytes (limit %d)", d, len(tc.input), limit),
@@ -546,6 +623,7 @@ func runC18(c *Ctx) {
 			sampled++
 		}
 		rep.Count("allocation_samples", int64(sampled))
+		rep.Count("phase_ms/allocation-sampling", int64(time.Since(tPhase)/time.Millisecond))
 	}
 	rep.Sample(map[string]interface{}{"decoders": len(decs), "example": "x509.ParsePKCS7+use / length-rewrite: a TLV length of the enveloped-data object replaced by 0x84ffffffff"})
 	var names []string
